@@ -20,6 +20,13 @@ SHARERS = ("sext", "rorh", "rolh", "ror", "rol", "pow", "simpb")     # APIs that
 # regression corpus: minimal inputs of the defects found so far (run first, every tier)
 CORPUS = [
     # (name, script, complexity, valuation)
+    ("raw-shl-over-bitslice", [["reg", "a", 32], ["cst", 40, 32], ["rawop", "shl"]], 0, [["a", 32, 5]]),
+    ("raw-shr-over-bitslice", [["reg", "h", 16], ["cst", 200, 8], ["rawop", "shr"]], 0, [["h", 16, 0xffff]]),
+    ("raw-shl-at-width", [["reg", "a", 32], ["cst", 32, 32], ["rawop", "shl"]], 0, [["a", 32, 5]]),
+    ("raw-shl-over-in-comp", [["reg", "a", 32], ["cst", 33, 32], ["rawop", "shl"], ["reg", "b", 32], ["rawcomp", 2]], 0,
+     [["a", 32, 5], ["b", 32, 7]]),
+    ("raw-neg-neg-cst", [["cst", 5, 8], ["rawuop", "neg"], ["rawuop", "neg"], ["reg", "a", 8], ["rawop", "add"]], 0, [["a", 8, 3]]),
+    ("raw-slc-of-cst", [["cst", 0xabcd, 16], ["rawslc", 4, 8], ["reg", "a", 8], ["rawop", "xor"]], 0, [["a", 8, 3]]),
     ("neq-bit0", [["reg", "a", 32], ["reg", "b", 32], ["lt"], ["cst", 0, 1], ["ne"]], 0, [["a", 32, 1], ["b", 32, 2]]),
     ("neq-bit0-b", [["reg", "a", 32], ["reg", "b", 32], ["lt"], ["cst", 0, 1], ["ne"]], 0, [["a", 32, 2], ["b", 32, 1]]),
     ("ltu-const", [["cst", 0x80000000, 32], ["cst", 1, 32], ["ltu"]], 0, []),
@@ -143,11 +150,11 @@ def has_vec(d):
 # ---------------------------------------------------------------------------------------
 
 ARITY = {"cst": 0, "reg": 0, "ext": 0, "top": 0, "signed": 1, "unsigned": 1, "neg": 1, "not": 1, "slice": 1, "bit": 1,
-         "zext": 1, "sext": 1, "simp": 1, "simpb": 1, "tst": 3}
+         "zext": 1, "sext": 1, "simp": 1, "simpb": 1, "tst": 3, "rawuop": 1, "rawslc": 1}
 
 
 def arity(ins):
-    if ins[0] == "compose":
+    if ins[0] in ("compose", "rawcomp"):
         return ins[1]
     return ARITY.get(ins[0], 2)
 
@@ -243,8 +250,10 @@ def shape(script):
             out.append("c" + c + ("s" if v < 0 else ""))
         elif o in ("reg", "ext"):
             out.append("r")
-        elif o in ("slice", "bit", "zext", "sext", "compose"):
+        elif o in ("slice", "bit", "zext", "sext", "compose", "rawslc", "rawcomp"):
             out.append(o)
+        elif o in ("rawop", "rawuop"):
+            out.append("raw-" + ins[1])
         else:
             out.append(o)
     return " ".join(out)
@@ -473,6 +482,14 @@ def run_check(prop, tier):
                 s = same(real, m, script, a)
             else:
                 s = same_width(real, m)
+            if s == "diff" and not v and real[0] == "ok" and isinstance(m, list) and m[0] == "ok" and real[3] == m[3] \
+                    and any(i[0].startswith("raw") for i in script):
+                # a RAW node is not a fixpoint of simplify, and the real code simplifies operand OBJECTS in place
+                # (op.simplify assigns self.l/self.r; `t == bit1` inside tst.simplify, extend, ... re-simplify an
+                # object that is also held elsewhere): the real result can be MORE simplified than the functional
+                # model's.  There the tie is semantic: same width, the real result judged by the reference
+                # evaluator (above) and the Lean ideal value of the model result checked against it (above).
+                s = "raw-inplace"
             ck.count("tie." + s)
             if s == "diff" and not v:
                 if dirty:
@@ -533,6 +550,7 @@ def run_check(prop, tier):
     ck.assumptions += [
         "string-hash collisions of CPython are not modelled (exp.__eq__ compares hash(str)+size)",
         "object identity is not modelled: where amoco itself places one object at two positions (extend, rol, bitslice) results are compared up to the sf flags of inner nodes (counted as tie.drift); likewise, under an environment that binds a register to a compound expression, eval hands out the stored objects (a C09 concern) and results are compared up to sf flags",
+        "raw (constructor-built, unsimplified) nodes are simplified in place by the real code, also as a side effect of comparisons inside simplify; when such an object is held at two places the real result can be more simplified than the functional model's: on scripts with raw nodes a structural difference with equal width and passing value oracles is counted as tie.raw-inplace",
         "vec/vecw results (widening) are compared by outcome class and size only (C19's fragment)",
         "shift amounts between 2^16 and 2^60 are not generated: the real code would compute `int << n` literally",
         "signed `/` and `%`: the oracle accepts floor and truncate; sign-dependent operators are judged only when every leaf below both operands carries the declared signedness",
